@@ -84,7 +84,10 @@ impl TraitHandler for DefaultUnionHandler {
 
                 let mut fields_token_stream = proc_macro2::TokenStream::new();
 
-                let field_name = field.ident.as_ref().unwrap();
+                // the name is spelled by the macro, not by the user: a lint on the field (`#[deprecated]`)
+                // must not fire on the generated union expression
+                let mut field_name = field.ident.clone().unwrap();
+                field_name.set_span(::proc_macro2::Span::mixed_site());
 
                 if let Some(expression) = field_attribute.expression {
                     fields_token_stream.extend(quote! {
